@@ -409,6 +409,35 @@ def rule_widen1(ctx: Ctx) -> RuleResult:
             else:
                 rr.ob(f.relpath, f.qualname, norm(n), "only Unknown, Null and int-next-to-float are ever removed from the "
                       "candidates", VIOLATED, f"`{what}` is removed: an observed type is lost", n.lineno)
+    # WIDEN-2: the category lists filled by the routing loop reach their consumers unfiltered
+    route = next((n for n in walk_no_nested(f.node) if isinstance(n, ast.For) and norm(n.iter).endswith(".types")), None)
+    if route is None:
+        raise AnalysisError("WIDEN-2: the routing loop over the union members was not found")
+    cats = set()
+    for x in ast.walk(route):
+        if isinstance(x, ast.Call) and isinstance(x.func, ast.Attribute) and x.func.attr == "append" and isinstance(x.func.value, ast.Name):
+            cats.add(x.func.value.id)
+    # every member goes to exactly one category on every path
+    from ..paths import enumerate_paths as _ep
+    for pth in _ep(route.body):
+        rr.instances += 1
+        apps = [norm(s.value.func.value) for s in pth.stmts() if isinstance(s, ast.Expr) and isinstance(s.value, ast.Call)
+                and isinstance(s.value.func, ast.Attribute) and s.value.func.attr == "append" and norm(s.value.args[0]) != "Null"]
+        okp = len(apps) == 1 and pth.exit == "fall"
+        rr.ob(f.relpath, f.qualname, pth.describe()[:90], "each union member is routed to exactly one category", DISCHARGED if okp else VIOLATED,
+              f"appended to {apps}" if okp else f"appended to {apps} / exit {pth.exit}: the member is dropped or counted twice", route.lineno)
+    for n in walk_no_nested(f.node):
+        if isinstance(n, (ast.Assign, ast.AugAssign, ast.AnnAssign)) and n.lineno > route.lineno:
+            tg = n.targets[0] if isinstance(n, ast.Assign) else n.target
+            if isinstance(tg, ast.Name) and tg.id in cats and getattr(n, "value", None) is not None:
+                rr.instances += 1
+                v = n.value
+                okv = isinstance(v, ast.Call) and isinstance(v.func, ast.Attribute) and v.func.attr == "resolve" and any(
+                    isinstance(a, ast.Starred) and norm(a.value) == tg.id for a in v.args)
+                rr.ob(f.relpath, f.qualname, norm(n)[:80], "after routing, a category is only consumed (the one rewrite allowed "
+                      "is resolving the string pseudo-types to their common type)", DISCHARGED if okv else VIOLATED,
+                      "pseudo-type resolution" if okv else f"category `{tg.id}` is filtered / rebuilt: members observed in the "
+                      f"samples (e.g. an empty object, typed Dict[str, Any]) are silently dropped", n.lineno)
     # NF-5: Unknown removal works on the complete candidate list (the one unpacked into the final DUnion)
     final = [n for n in walk_no_nested(f.node) if isinstance(n, ast.Call) and norm(n.func) == "DUnion" and len(n.args) == 1
              and isinstance(n.args[0], ast.Starred) and isinstance(n.args[0].value, ast.Name)]
@@ -643,6 +672,20 @@ def rule_eq1(ctx: Ctx) -> RuleResult:
                           f"{sorted(need - cleared)} keep their old value: de-duplication and equality see the old content "
                           f"(two pointers to one model stay 'different')", w.lineno)
         # in-place element assignment through the public property must go through the setter
+    # (d) de-duplication tokens are complete: no truncation, no lossy hashing of the members
+    for c in list(prog.subclasses(base)):
+        for mname in ("_to_hash_string", "to_hash_string", "_repr_literals"):
+            for f in c.methods.get(mname, []):
+                rr.instances += 1
+                lossy = [n for n in walk_no_nested(f.node) if (isinstance(n, ast.Subscript) and isinstance(n.slice, ast.Slice)) or (
+                    isinstance(n, ast.Call) and norm(n.func) in ("hash", "hashlib.md5", "hashlib.sha1", "zlib.crc32", "abs", "id"))
+                    or (isinstance(n, ast.JoinedStr) and any(isinstance(v, ast.FormattedValue) and v.format_spec is not None for v in n.values))]
+                rr.ob(f.relpath, f.qualname, norm(lossy[0])[:60] if lossy else mname, "the text that stands for a type in "
+                      "de-duplication and equality is built from all of its content (different types never share a token)",
+                      VIOLATED if lossy else DISCHARGED,
+                      f"`{norm(lossy[0])[:50]}` truncates / hashes the token: two different types (e.g. literal sets that differ "
+                      f"only in a late member) collapse into one union member and observed values vanish" if lossy else
+                      "no truncation or hashing", f.node.lineno)
     rp = prog.func(CPLX, "SingleType.replace")
     rr.instances += 1
     ok = any(isinstance(n, ast.Assign) and norm(n.targets[0]) == "self.type" for n in walk_no_nested(rp.node))
